@@ -9,6 +9,7 @@ import (
 	"crypto/sha256"
 	"encoding/hex"
 	"fmt"
+	"io"
 	"os"
 	"path/filepath"
 	"sort"
@@ -74,6 +75,8 @@ type world struct {
 	netOps    int
 	netFailAt int
 	netFaults int
+	// events a Starlark callback received from the REPL's run() builtin
+	replEvents []eventRec
 }
 
 type bodySpec struct {
@@ -388,6 +391,8 @@ type buildOpts struct {
 	GCAfter bool
 	// SecondPlain: the second run (SecondRun) is not forced although the first was.
 	SecondPlain bool
+	// ViaREPL: run through the REPL's run() builtin with a callback that records the events.
+	ViaREPL bool
 }
 
 // process runs one simulated dawn process: Load, then (optionally) GC and/or Run.
@@ -441,6 +446,11 @@ func (w *world) process(name string, pc procCfg, bo buildOpts, stepHook func(ste
 			return
 		}
 		w.runNo = 1
+		if bo.ViaREPL {
+			res.RunErr = w.replRun(proj, bo)
+			res.Ran = true
+			return
+		}
 		res.RunErr = proj.Run(l, &RunOptions{Always: bo.Always, DryRun: bo.DryRun})
 		if bo.SecondRun {
 			res.FirstRunErr = res.RunErr
@@ -457,6 +467,45 @@ func (w *world) process(name string, pc procCfg, bo buildOpts, stepHook func(ste
 	})
 	w.sim = nil
 	return res
+}
+
+// replRun builds bo.Label the way the REPL does: run(label, always=, dry_run=, callback=).
+// The callback is a harness builtin that records the event structs it is handed.
+func (w *world) replRun(proj *Project, bo buildOpts) error {
+	thread, globals := proj.REPLEnv(io.Discard, &label.Label{Kind: "module", Package: "//"})
+	run, ok := globals["run"].(starlark.Callable)
+	if !ok {
+		return fmt.Errorf("the REPL environment has no run builtin")
+	}
+	cb := starlark.NewBuiltin("record_event", func(_ *starlark.Thread, _ *starlark.Builtin, args starlark.Tuple, _ []starlark.Tuple) (starlark.Value, error) {
+		rec := eventRec{Seq: w.nextSeq()}
+		if len(args) == 1 {
+			if ev, ok := args[0].(starlark.HasAttrs); ok {
+				str := func(name string) string {
+					v, err := ev.Attr(name)
+					if err != nil || v == nil || v == starlark.None {
+						return ""
+					}
+					if s, ok := starlark.AsString(v); ok {
+						return s
+					}
+					return v.String()
+				}
+				rec.Kind, rec.Label, rec.Text = str("kind"), str("label"), str("err")
+				if rec.Kind == "Print" {
+					rec.Text = str("line")
+				}
+			}
+		}
+		w.replEvents = append(w.replEvents, rec)
+		return starlark.None, nil
+	})
+	_, err := starlark.Call(thread, run, starlark.Tuple{starlark.String(bo.Label)}, []starlark.Tuple{
+		{starlark.String("always"), starlark.Bool(bo.Always)},
+		{starlark.String("dry_run"), starlark.Bool(bo.DryRun)},
+		{starlark.String("callback"), cb},
+	})
+	return err
 }
 
 // ---------------------------------------------------------------- scratch directories
